@@ -41,6 +41,9 @@ static inline u64 ir2c_strlen(const u8 *s)
 static inline u32 ir2c_strcmp(const u8 *a, const u8 *b) { u64 i = 0; while (a[i] && a[i] == b[i]) i++; return a[i] == b[i] ? 0 : (a[i] < b[i] ? (u32)-1 : 1u); }
 static inline u32 ir2c_strncmp(const u8 *a, const u8 *b, u64 n) { for (u64 i = 0; i < n; i++) { if (a[i] != b[i]) return a[i] < b[i] ? (u32)-1 : 1u; if (!a[i]) return 0; } return 0; }
 static inline u8 *ir2c_strchr(const u8 *s, u32 c) { for (u64 i = 0;; i++) { if (s[i] == (u8)c) return (u8*)s + i; if (!s[i]) return 0; } }
+#ifndef IR2C_ALLOC_HOOK
+#define IR2C_ALLOC_HOOK(n) do { } while (0)
+#endif
 static u64 ir2c_alloc_total;
 static inline void *ir2c_new(u64 n);
 static inline void ir2c_delete(void *p);
@@ -55,10 +58,10 @@ static inline void *ir2c_new(u64 n) { __CPROVER_assert(n <= IR2C_MAXALLOC, "allo
 #define IR2C_NEW_COOKIE(T, n, c) ((u8*)ir2c_new(n))
 static inline void ir2c_delete(void *p) { if (p) free((char*)p - __CPROVER_POINTER_OFFSET(p)); }
 #else
-static inline void *ir2c_new(u64 n) { void *p = malloc(n); __CPROVER_assume(p != 0); return p; }
+static inline void *ir2c_new(u64 n) { IR2C_ALLOC_HOOK(n); void *p = malloc(n); __CPROVER_assume(p != 0); return p; }
 /* the element type is recovered from the bitcast that follows operator new; with an array-new cookie that is the cookie's type, so the size is rounded UP to whole elements */
-#define IR2C_NEW_TYPED(T, n) ((u8*)({ u64 n_ = (n); T *p_ = malloc(sizeof(T) * ((n_ + sizeof(T) - 1) / sizeof(T))); __CPROVER_assume(p_ != 0); p_; }))
-#define IR2C_NEW_COOKIE(T, n, c) ((u8*)({ u64 n_ = (n); u64 k_ = (n_ - (c)) / sizeof(T); T *o_ = malloc(sizeof(T) * (k_ + 1)); __CPROVER_assume(o_ != 0); &((u8*)o_)[sizeof(T) - (c)]; }))   /* an address-of expression: the caller's NULL test folds */
+#define IR2C_NEW_TYPED(T, n) ((u8*)({ u64 n_ = (n); IR2C_ALLOC_HOOK(n_); T *p_ = malloc(sizeof(T) * ((n_ + sizeof(T) - 1) / sizeof(T))); __CPROVER_assume(p_ != 0); p_; }))
+#define IR2C_NEW_COOKIE(T, n, c) ((u8*)({ u64 n_ = (n); IR2C_ALLOC_HOOK(n_); u64 k_ = (n_ - (c)) / sizeof(T); T *o_ = malloc(sizeof(T) * (k_ + 1)); __CPROVER_assume(o_ != 0); &((u8*)o_)[sizeof(T) - (c)]; }))   /* an address-of expression: the caller's NULL test folds */
 static inline void ir2c_delete(void *p) { if (p) free((char*)p - __CPROVER_POINTER_OFFSET(p)); }
 #endif
 #define ir2c_crash() do { __CPROVER_assert(0, "MCRASH reached"); __CPROVER_assume(0); } while(0)
